@@ -52,7 +52,14 @@ def args_probe(mode):
     exec("def fz(a=1, c=3):\n    Out.kr(0, SinOsc.kr(c) * a)\n", ns)
     fresh_z = bytes(SynthDef('pz', ns['fz']).as_bytes())
     vs = {'bright': {'c': 7}, 'dark': {'c': 1}, 'wide': {'d': 0.5}, 'x': {'a': 2}, 'long_name': {'c': 9, 'a': 3}}
-    digests.append(hashlib.sha1(bytes(SynthDef('pv', ns['fa'], None, None, vs).as_bytes())).hexdigest())
+    pvdef = SynthDef('pv', ns['fa'], None, None, vs)
+    pv1 = bytes(pvdef.as_bytes())
+    pv2 = bytes(pvdef.as_bytes())
+    pv3 = bytes(SynthDef('pv', ns['fa'], None, None, copy.deepcopy(vs)).as_bytes())
+    if not (pv1 == pv2 == pv3):
+        problems.append(f'a definition with five variants serialised twice / rebuilt from equal arguments gives different bytes '
+                        f'({len(pv1)}, {len(pv2)}, {len(pv3)} bytes)')
+    digests.append(hashlib.sha1(pv1).hexdigest())
     for rates in ([0.5, 0.25, None, 0.125], [None, 'kr', 0.5, 0.25], [0.1, 0.1]):
         shared = copy.deepcopy(rates)
         variants = {'v': {'c': 7}}
@@ -129,6 +136,41 @@ def args_probe(mode):
         SynthDef('pz', g2['outer'])
     except Exception as e:
         problems.append(f'filling variants/metadata of a built definition raised {type(e).__name__}: {e}')
+    # a definition whose parameter default is None, before and after the SAME function was registered under
+    # the same name with specs metadata
+    try:
+        exec("def fq(a=None, c=3):\n    Out.kr(0, SinOsc.kr(c) * (a if a is not None else 1))\n", ns)
+        q0 = bytes(SynthDef('pq', ns['fq']).as_bytes())
+        try:
+            SynthDef('pq', ns['fq'], metadata={'specs': {'a': [0, 1, 'lin', 0, 0.25]}}).add()
+        except Exception:
+            pass
+        q1 = bytes(SynthDef('pq', ns['fq']).as_bytes())
+        if q0 != q1:
+            problems.append('a definition built without metadata differs after the same function was registered under the same '
+                            f'name with specs metadata ({len(q0)} vs {len(q1)} bytes)')
+    except Exception as e:
+        problems.append(f'metadata history probe raised {type(e).__name__}: {e}'[:200])
+    # a definition made through the decorator whose writer fails leaves nothing registered for the next boot
+    try:
+        from sc3.synth.synthdef import synthdef as _deco
+        from sc3.base.systemactions import ServerBoot
+
+        def count_boot():
+            return sum(len(v) for v in ServerBoot._servers.values())
+        n0 = count_boot()
+        try:
+            @_deco(variants={'bad': {'c': 'not-a-number'}})
+            def fbad(c=3):
+                Out.kr(0, SinOsc.kr(c))
+            failed = False
+        except Exception:
+            failed = True
+        if failed and count_boot() != n0:
+            problems.append('a decorated definition whose build/registration raised left a ServerBoot action registered '
+                            f'({n0} -> {count_boot()} actions)')
+    except Exception as e:
+        problems.append(f'decorator probe raised {type(e).__name__}: {e}'[:200])
     again_z = bytes(SynthDef('pz', ns['fz']).as_bytes())
     if again_z != fresh_z:
         problems.append(f'a definition built with default arguments after earlier use of the library (another definition\'s '
